@@ -1,73 +1,529 @@
 """Translator for C20: physical constants and hard-coded factors of the surface code → Lean (`Gen/SurfConst.lean`).
 
-Read from /repo on every run:
-  global_structures.h : F_C_MOL, F_KJ_V_EQ, R_KJ_DEG_MOL, EPSILON_ZERO
-  model.cpp residuals : the factor in `sqrt(8 * eps_r * EPSILON_ZERO * (R_KJ_DEG_MOL * 1000) * tk_x * 1000)` (every
-                        occurrence in model.cpp must agree), the `0.5 * sinh_constant * sqrt(sum)` of CD-MUSIC
-  prep.cpp add_potential_factor : the factor in `coef = -2.0 * sum_z`
-`Properties/C20.lean` proves that the constants of `Model/Surface.lean` are exactly these (`source_constants`); when the
-source changes, or its shape is no longer recognised (`recognised = false`), that obligation breaks.
+What is read from /repo on every run (values, not spellings):
+  F_C_MOL, F_KJ_V_EQ, R_KJ_DEG_MOL, EPSILON_ZERO   wherever they are defined (#define / const / constexpr / enum), evaluated
+  GC_FACTOR      model.cpp: every `sqrt(E)` whose argument is the monomial c·eps_r·EPSILON_ZERO·R_KJ_DEG_MOL·tk_x → c/10^6 (= 8)
+  FSINH_FACTOR   integrate.cpp: every `sqrt(E)` with E = c·eps_r·EPSILON_ZERO·R_KJ_DEG_MOL·tk_x·mu_x → c/10^3 (= 8000)
+  ALPHA_FACTOR   integrate.cpp: every `sqrt(E)` with E = c·eps_r·EPSILON_ZERO·R_KJ_DEG_MOL·tk_x (c < 10^6·1) → c/10^6 (= 1/2)
+  CD_DDL_FACTOR  residuals: the two assignments  v = ±c · <a Gouy–Chapman constant variable> · sqrt(…)          → c (= 1/2)
+  CCM_FACTOR     residuals: the term  c · capacitance0 · la · R_KJ_DEG_MOL · tk_x · LOG_10 / F_KJ_V_EQ            → c (= 2)
+  PSI_COEF       add_potential_factor: `X += …->z * ….coef` accumulates X, then `….coef = c · X`                 → c (= -2)
+
+The facts are read from the STRUCTURE of the code: comments are stripped; every statement `lhs = rhs;` of the function is
+found whatever surrounds it (so added guards, reordered branches, extra statements do not matter); before an expression is
+read
+  * locals that are initialised once and never assigned again (`const LDBLE K = -2.0;`, `LDBLE T = tk_x;`) are replaced by
+    their initialiser, names defined by `#define` / `static const` / `constexpr` / enumerators in the file or in
+    global_structures.h (other than the four physical constants, which stay symbolic) by their value,
+  * a call of a file-local `static` helper whose body is a single `return E;` is replaced by E with the arguments substituted
+    (one level),
+  * the expression is parsed (numbers, names, member chains, calls, casts, + - * /) and normalised to a polynomial
+    coefficient·∏ atoms, so regrouping, reordering of factors, `1000*1000` vs `1e6`, renamed locals do not change what is
+    read; atoms that are local names are matched by ROLE (left-hand side of a Gouy–Chapman assignment, accumulator of
+    `z*coef`), members by their last component (`->la`, `Get_capacitance0()`).
+Only a real change of a factor, constant or term changes the generated table.  When a fact cannot be established the
+translator FAILS CLOSED: `recognised = false` (and the value 0), which breaks `source_constants` in Properties/C20.lean.
 """
 import re
 from fractions import Fraction
 
 import vlib
 
+PHYS = ("F_C_MOL", "F_KJ_V_EQ", "R_KJ_DEG_MOL", "EPSILON_ZERO")
+TYPES = {"LDBLE", "double", "float", "int", "long", "size_t", "unsigned"}
 
-def _num(txt):
-    return Fraction(txt)          # exact decimal → rational ("8.854e-12" works)
+
+class Unrecognised(Exception):
+    pass
+
+
+# ------------------------------------------------------------------------------------------------ text level
+def strip_comments(src):
+    src = re.sub(r"/\*.*?\*/", lambda m: "\n" * m.group(0).count("\n"), src, flags=re.S)
+    return re.sub(r"//[^\n]*", "", src)
+
+
+def match_close(s, i, op="{", cl="}"):
+    """index just after the bracket that closes the one at s[i]"""
+    depth = 0
+    for j in range(i, len(s)):
+        if s[j] == op:
+            depth += 1
+        elif s[j] == cl:
+            depth -= 1
+            if depth == 0:
+                return j + 1
+    raise Unrecognised("unbalanced " + op)
+
+
+def function_body(src, name):
+    m = re.search(r"\b(?:Phreeqc::\s*)?%s\s*\([^)]*\)\s*(?:const\s*)?\{" % re.escape(name), src)
+    if not m:
+        raise Unrecognised(f"function {name} not found")
+    return src[m.end() - 1:match_close(src, m.end() - 1)]
+
+
+def function_bodies(src):
+    """all top-level function bodies of a file (name, body)"""
+    out = []
+    for m in re.finditer(r"\b(\w+)\s*\([^;{}()]*\)\s*(?:const\s*)?\{", src):
+        if m.group(1) in ("if", "for", "while", "switch", "catch"):
+            continue
+        try:
+            out.append((m.group(1), src[m.end() - 1:match_close(src, m.end() - 1)]))
+        except Unrecognised:
+            pass
+    return out
+
+
+# ------------------------------------------------------------------------------------------------ expressions
+TOK = re.compile(r"\s*(\d+\.\d*(?:[eE][+-]?\d+)?|\.\d+(?:[eE][+-]?\d+)?|\d+(?:[eE][+-]?\d+)?|[A-Za-z_]\w*|->|::|[-+*/()\[\],.<>=!&|?:%])")
+
+
+def tokenize(s):
+    toks, i = [], 0
+    s = s.strip()
+    while i < len(s):
+        m = TOK.match(s, i)
+        if not m:
+            raise Unrecognised("cannot tokenise: " + s[i:i + 30])
+        toks.append(m.group(1))
+        i = m.end()
+    return toks
+
+
+class Poly(dict):
+    """polynomial: {monomial: Fraction}, monomial = sorted tuple of (atom text, integer power)"""
+
+    @staticmethod
+    def num(q):
+        return Poly({(): Fraction(q)}) if q != 0 else Poly()
+
+    @staticmethod
+    def atom(a):
+        return Poly({((a, 1),): Fraction(1)})
+
+    def add(self, o, sign=1):
+        r = Poly(self)
+        for k, v in o.items():
+            r[k] = r.get(k, 0) + sign * v
+            if r[k] == 0:
+                del r[k]
+        return r
+
+    def mul(self, o):
+        r = Poly()
+        for k1, v1 in self.items():
+            for k2, v2 in o.items():
+                d = dict(k1)
+                for a, p in k2:
+                    d[a] = d.get(a, 0) + p
+                k = tuple(sorted((a, p) for a, p in d.items() if p != 0))
+                r[k] = r.get(k, 0) + v1 * v2
+                if r[k] == 0:
+                    del r[k]
+        return r
+
+    def inv(self):
+        if len(self) != 1:
+            return Poly.atom("1/(" + self.text() + ")") if False else Poly({((("(" + self.text() + ")"), -1),): Fraction(1)})
+        (k, v), = self.items()
+        return Poly({tuple(sorted((a, -p) for a, p in k)): 1 / v})
+
+    def text(self):
+        parts = []
+        for k in sorted(self):
+            parts.append(str(self[k]) + "".join(f"*{a}^{p}" for a, p in k))
+        return "+".join(parts) if parts else "0"
+
+
+class Parser:
+    def __init__(self, toks):
+        self.t, self.i = toks, 0
+
+    def peek(self):
+        return self.t[self.i] if self.i < len(self.t) else None
+
+    def eat(self, x=None):
+        tok = self.peek()
+        if tok is None or (x is not None and tok != x):
+            raise Unrecognised(f"expected {x}, found {tok}")
+        self.i += 1
+        return tok
+
+    def expr(self):
+        r = self.term()
+        while self.peek() in ("+", "-"):
+            op = self.eat()
+            r = r.add(self.term(), 1 if op == "+" else -1)
+        return r
+
+    def term(self):
+        r = self.unary()
+        while self.peek() in ("*", "/"):
+            op = self.eat()
+            u = self.unary()
+            r = r.mul(u if op == "*" else u.inv())
+        return r
+
+    def unary(self):
+        if self.peek() == "-":
+            self.eat()
+            return self.unary().mul(Poly.num(-1))
+        if self.peek() == "+":
+            self.eat()
+            return self.unary()
+        # cast: ( type )
+        if self.peek() == "(" and self.i + 2 < len(self.t) and self.t[self.i + 1] in TYPES and self.t[self.i + 2] == ")":
+            self.i += 3
+            return self.unary()
+        return self.postfix()
+
+    def postfix(self):
+        tok = self.peek()
+        if tok is None:
+            raise Unrecognised("unexpected end")
+        if tok == "(":
+            self.eat()
+            r = self.expr()
+            self.eat(")")
+            if self.peek() not in ("->", ".", "["):
+                return r
+            text = "(" + r.text() + ")"
+        elif re.match(r"\d|\.\d", tok):
+            self.eat()
+            return Poly.num(Fraction(tok))
+        elif re.match(r"[A-Za-z_]", tok):
+            text = self.eat()
+        else:
+            raise Unrecognised("unexpected token " + tok)
+        while self.peek() in ("->", ".", "::", "(", "["):
+            op = self.eat()
+            if op in ("->", ".", "::"):
+                text += op + self.eat()
+            elif op == "(":
+                args = []
+                if self.peek() != ")":
+                    args.append(self.expr())
+                    while self.peek() == ",":
+                        self.eat()
+                        args.append(self.expr())
+                self.eat(")")
+                text += "(" + ",".join(a.text() for a in args) + ")"
+            else:
+                idx = self.expr()
+                self.eat("]")
+                text += "[" + idx.text() + "]"
+        return Poly.atom(text)
+
+
+def parse(s):
+    p = Parser(tokenize(s))
+    r = p.expr()
+    if p.peek() is not None:
+        raise Unrecognised("trailing tokens in: " + s[:80])
+    return r
+
+
+def single(poly):
+    """(coefficient, {atom: power}) of a polynomial that is one monomial"""
+    if len(poly) != 1:
+        raise Unrecognised("not a single term: " + poly.text()[:120])
+    (k, v), = poly.items()
+    return v, dict(k)
+
+
+# ------------------------------------------------------------------------------------------------ resolution of names
+def file_constants(*texts):
+    """name -> expression text for `#define N e`, `static const T N = e;`, `constexpr T N = e;`, `const T N = e;` at file
+    level and enumerators `N = e` — candidates for substitution"""
+    out = {}
+    for t in texts:
+        for m in re.finditer(r"(?m)^[ \t]*#[ \t]*define[ \t]+(\w+)[ \t]+([^\n]+?)[ \t]*$", t):
+            out.setdefault(m.group(1), m.group(2))
+        for m in re.finditer(r"(?m)^[ \t]*(?:static\s+)?(?:constexpr|const)\s+(?:static\s+)?(?:const\s+)?\w+\s+(\w+)\s*=\s*([^;]+);", t):
+            out.setdefault(m.group(1), m.group(2))
+    return out
+
+
+def numeric(name, consts, depth=0):
+    """value of a named constant (recursively through other named constants)"""
+    if depth > 6 or name not in consts:
+        raise Unrecognised(f"constant {name} not found")
+    expr = substitute(consts[name], {k: v for k, v in consts.items() if k != name}, keep=())
+    c, atoms = single(parse(expr))
+    if atoms:
+        raise Unrecognised(f"constant {name} is not a number: {expr}")
+    return c
+
+
+def substitute(expr, table, keep=PHYS):
+    """replace whole-word names (not members: not after `.` / `->`) by `(value)`; a few passes for nested names"""
+    for _ in range(4):
+        changed = False
+
+        def rep(m):
+            nonlocal changed
+            n = m.group(0)
+            if n in table and n not in keep:
+                changed = True
+                return "(" + table[n] + ")"
+            return n
+        expr = re.sub(r"(?<![\w.>])(?<!->)[A-Za-z_]\w*(?!\s*\()", rep, expr)
+        if not changed:
+            break
+    return expr
+
+
+def local_initialisers(body):
+    """locals `T name = expr;` that are never assigned again in the body: name -> expr"""
+    out = {}
+    for m in re.finditer(r"(?:\bconst\s+)?\b(?:LDBLE|double|float|int|long|size_t)\s+(?:const\s+)?(\w+)\s*=\s*([^;,]+);", body):
+        name = m.group(1)
+        rest = body[:m.start()] + body[m.end():]
+        if re.search(r"(?<![\w.>])%s\s*(?:[-+*/]?=(?!=)|\+\+|--)" % re.escape(name), rest) or re.search(r"(?:\+\+|--)\s*%s\b" % re.escape(name), rest):
+            continue
+        out[name] = m.group(2).strip()
+    return out
+
+
+def static_helpers(src):
+    """file-local helpers whose body is one `return E;`: name -> (parameter names, E)"""
+    out = {}
+    for m in re.finditer(r"\bstatic\s+(?:inline\s+)?(?:const\s+)?\w+\s+(\w+)\s*\(([^)]*)\)\s*\{\s*return\s+([^;]+);\s*\}", src):
+        params = [p.strip().split()[-1].lstrip("*&") for p in m.group(2).split(",") if p.strip() and p.strip() != "void"]
+        out[m.group(1)] = (params, m.group(3))
+    return out
+
+
+def inline_helpers(expr, helpers):
+    for name, (params, body) in helpers.items():
+        while True:
+            m = re.search(r"(?<![\w.>])%s\s*\(" % re.escape(name), expr)
+            if not m:
+                break
+            end = match_close(expr, m.end() - 1, "(", ")")
+            args, depth, cur = [], 0, ""
+            for ch in expr[m.end():end - 1]:
+                if ch == "," and depth == 0:
+                    args.append(cur)
+                    cur = ""
+                else:
+                    depth += ch in "(["
+                    depth -= ch in ")]"
+                    cur += ch
+            if cur.strip():
+                args.append(cur)
+            if len(args) != len(params):
+                raise Unrecognised(f"helper {name}: argument count")
+            b = body
+            for p, a in zip(params, args):
+                b = re.sub(r"(?<![\w.>])%s\b" % re.escape(p), "(" + a.strip() + ")", b)
+            expr = expr[:m.start()] + "(" + b + ")" + expr[end:]
+    return expr
+
+
+def assignments(body):
+    """(lhs, op, rhs) of every statement `lhs = rhs;` / `lhs += rhs;` of a body, whatever block it sits in"""
+    out = []
+    for chunk in re.split(r"[;{}]", body):
+        c = " ".join(chunk.split())
+        # drop leading `else`, `if (...)`
+        while True:
+            if c.startswith("else "):
+                c = c[5:]
+                continue
+            m = re.match(r"(?:if|while|for)\s*\(", c)
+            if m:
+                try:
+                    c = c[match_close(c, m.end() - 1, "(", ")"):].strip()
+                    continue
+                except Unrecognised:
+                    break
+            break
+        m = re.match(r"^((?:\w|\.|->|::|\[[^\]]*\]|\([^)]*\))+)\s*(\+=|-=|=)(?!=)\s*(.+)$", c)
+        if m and not re.match(r"(?:LDBLE|double|int|float|return)\b", c):
+            out.append((m.group(1), m.group(2), m.group(3)))
+        else:
+            m = re.match(r"^(?:const\s+)?(?:LDBLE|double|float)\s+(?:const\s+)?(\w+)\s*=\s*(.+)$", c)
+            if m:
+                out.append((m.group(1), "=", m.group(2)))
+    return out
+
+
+def prepared(expr, table, helpers):
+    return substitute(inline_helpers(expr, helpers), table)
+
+
+def last(atom):
+    """last component of a member chain: `x[i]->master[0]->s->la` → `la`"""
+    return re.split(r"->|\.", atom)[-1]
+
+
+# ------------------------------------------------------------------------------------------------ the facts
+def sqrt_monomials(src, consts, want_atoms):
+    """coefficients c of every `name = sqrt(E)` in the file where E = c·∏ want_atoms; also the left-hand names"""
+    helpers = static_helpers(src)
+    coefs, names = [], set()
+    for fname, body in function_bodies(src):
+        if "EPSILON_ZERO" not in body and not any(h in body for h in helpers):
+            continue
+        table = dict(consts)
+        table.update(local_initialisers(body))
+        for lhs, op, rhs in assignments(body):
+            if op != "=" or "sqrt" not in prepared(rhs, table, helpers):
+                continue
+            e = prepared(rhs, table, helpers)
+            if "EPSILON_ZERO" not in e:
+                continue
+            m = re.match(r"^\(*\s*sqrt\s*\(", e)
+            if not m:
+                continue
+            try:
+                inner = e[m.end():match_close(e, m.end() - 1, "(", ")") - 1]
+                c, atoms = single(parse(inner))
+            except Unrecognised:
+                continue
+            if atoms == {a: 1 for a in want_atoms}:
+                coefs.append(c)
+                names.add(lhs)
+    return coefs, names
 
 
 def extract():
     src = vlib.REPO / "src" / "phreeqcpp"
-    gs = (src / "global_structures.h").read_text()
-    model = (src / "model.cpp").read_text()
-    prep = (src / "prep.cpp").read_text()
+    gs = strip_comments((src / "global_structures.h").read_text())
+    model = strip_comments((src / "model.cpp").read_text())
+    prep = strip_comments((src / "prep.cpp").read_text())
+    integ = strip_comments((src / "integrate.cpp").read_text())
+    phq = strip_comments((src / "Phreeqc.h").read_text())
     out, where, ok = {}, [], True
-    for name in ("F_C_MOL", "F_KJ_V_EQ", "R_KJ_DEG_MOL", "EPSILON_ZERO"):
-        m = re.search(r"^#define\s+%s\s+([0-9.eE+-]+)" % name, gs, re.M)
-        if not m:
-            ok = False
-            out[name] = Fraction(0)
-            continue
-        out[name] = _num(m.group(1))
-        where.append(f"global_structures.h:{gs[:m.start()].count(chr(10)) + 1} {name}")
-    # Gouy–Chapman constant: all live occurrences (not in // comments)
-    live = "\n".join(re.sub(r"//.*", "", ln) for ln in model.splitlines())
-    occ = re.findall(r"sqrt\(\s*([0-9.]+)\s*\*\s*eps_r\s*\*\s*EPSILON_ZERO\s*\*\s*\(R_KJ_DEG_MOL\s*\*\s*1000\)\s*\*\s*tk_x\s*\*\s*1000\s*\)",
-                     re.sub(r"\s+", " ", live))
-    if len(occ) < 3 or len(set(occ)) != 1:
+
+    def fail(key, why):
+        nonlocal ok
         ok = False
-        out["GC_FACTOR"] = Fraction(0)
+        out[key] = Fraction(0)
+        where.append(f"{key}: NOT RECOGNISED ({why})")
+
+    consts_all = file_constants(gs, phq)
+    for name in PHYS:
+        try:
+            out[name] = numeric(name, consts_all)
+            where.append(f"{name} (definition evaluated)")
+        except Unrecognised as e:
+            fail(name, str(e))
+    # the four physical constants stay symbolic inside expressions
+    def table_for(text):
+        t = file_constants(gs, phq, text)
+        for p in PHYS:
+            t.pop(p, None)
+        # only names that evaluate to numbers are substituted
+        good = {}
+        for k in list(t):
+            try:
+                good[k] = str(numeric(k, dict(t)))
+            except Unrecognised:
+                pass
+        return good
+
+    base4 = ("eps_r", "EPSILON_ZERO", "R_KJ_DEG_MOL", "tk_x")
+    tm, ti, tp = table_for(model), table_for(integ), table_for(prep)
+    # Gouy–Chapman constant in model.cpp
+    gc, gcnames = sqrt_monomials(model, tm, base4)
+    if len(gc) < 3 or len(set(gc)) != 1:
+        fail("GC_FACTOR", f"{len(gc)} occurrences {sorted(set(map(str, gc)))}")
     else:
-        out["GC_FACTOR"] = _num(occ[0])
-        where.append(f"model.cpp sinh_constant x{len(occ)}")
-    m1 = re.search(r"sigmaddl = -([0-9.]+) \* sinh_constant \* sqrt\(sum\);", model)
-    m2 = re.search(r"sigmaddl = ([0-9.]+) \* sinh_constant \* sqrt\(sum\);", model)
-    if not (m1 and m2 and m1.group(1) == m2.group(1)):
-        ok = False
-        out["CD_DDL_FACTOR"] = Fraction(0)
+        out["GC_FACTOR"] = gc[0] / 10 ** 6
+        where.append(f"model.cpp Gouy-Chapman sqrt x{len(gc)}")
+    # integrate.cpp: f_sinh (with mu_x) and alpha
+    fs, _ = sqrt_monomials(integ, ti, base4 + ("mu_x",))
+    if len(fs) < 2 or len(set(fs)) != 1:
+        fail("FSINH_FACTOR", f"{len(fs)} occurrences")
     else:
-        out["CD_DDL_FACTOR"] = _num(m1.group(1))
-        where.append("model.cpp sigmaddl")
-    m = re.search(r"trxn\.token\[count_trxn\]\.coef = (-?[0-9.]+) \* sum_z;", prep)
-    if not m:
-        ok = False
-        out["PSI_COEF"] = Fraction(0)
+        out["FSINH_FACTOR"] = fs[0] / 10 ** 3
+        where.append(f"integrate.cpp f_sinh x{len(fs)}")
+    al, _ = sqrt_monomials(integ, ti, base4)
+    if len(al) < 2 or len(set(al)) != 1:
+        fail("ALPHA_FACTOR", f"{len(al)} occurrences")
     else:
-        out["PSI_COEF"] = _num(m.group(1))
-        where.append(f"prep.cpp:{prep[:m.start()].count(chr(10)) + 1} add_potential_factor")
-    # CCM: `capacitance0 * la * 2 * R_KJ_DEG_MOL * tk_x * LOG_10 / F_KJ_V_EQ` in the residual row
-    flat = re.sub(r"\s+", " ", live)
-    m = re.search(r"Get_capacitance0\(\) \* x\[i\]->master\[0\]->s->la \* ([0-9.]+) \* R_KJ_DEG_MOL \* tk_x \* LOG_10 / F_KJ_V_EQ - x\[i\]->f \* F_C_MOL",
-                  flat)
-    if not m:
-        ok = False
-        out["CCM_FACTOR"] = Fraction(0)
-    else:
-        out["CCM_FACTOR"] = _num(m.group(1))
-        where.append("model.cpp CCM residual")
+        out["ALPHA_FACTOR"] = al[0] / 10 ** 6
+        where.append(f"integrate.cpp alpha x{len(al)}")
+    # residuals: CD-MUSIC diffuse-layer charge and the CCM term
+    try:
+        body = function_body(model, "residuals")
+        helpers = static_helpers(model)
+        table = dict(tm)
+        table.update(local_initialisers(body))
+        cds, ccm = [], []
+        for lhs, op, rhs in assignments(body):
+            e = prepared(rhs, table, helpers)
+            if op == "=" and "sqrt" in e and any(re.search(r"\b%s\b" % re.escape(g), e) for g in gcnames) and "sinh(" not in e:
+                try:
+                    c, atoms = single(parse(e))
+                except Unrecognised:
+                    continue
+                rest = {a: p for a, p in atoms.items() if a not in gcnames}
+                if len(atoms) - len(rest) == 1 and len(rest) == 1 and list(rest)[0].startswith("sqrt(") and list(rest.values()) == [1]:
+                    cds.append(c)
+            if op == "=" and "Get_capacitance0" in e and "LOG_10" in e:
+                try:
+                    poly = parse(e)
+                except Unrecognised:
+                    continue
+                for k, v in poly.items():
+                    roles = sorted((last(a), p) for a, p in k)
+                    if roles == sorted([("Get_capacitance0()", 1), ("la", 1), ("R_KJ_DEG_MOL", 1), ("tk_x", 1), ("LOG_10", 1), ("F_KJ_V_EQ", -1)]):
+                        ccm.append(v)
+        if sorted(cds) and len(cds) == 2 and cds[0] == -cds[1]:
+            out["CD_DDL_FACTOR"] = abs(cds[0])
+            where.append("model.cpp residuals sigmaddl ±")
+        else:
+            fail("CD_DDL_FACTOR", f"found {list(map(str, cds))}")
+        if len(ccm) == 1:
+            out["CCM_FACTOR"] = ccm[0]
+            where.append("model.cpp residuals CCM term")
+        else:
+            fail("CCM_FACTOR", f"found {list(map(str, ccm))}")
+    except Unrecognised as e:
+        fail("CD_DDL_FACTOR", str(e))
+        fail("CCM_FACTOR", str(e))
+    # add_potential_factor: coefficient of the accumulated charge
+    try:
+        body = function_body(prep, "add_potential_factor")
+        helpers = static_helpers(prep)
+        table = dict(tp)
+        table.update(local_initialisers(body))
+        asg = [(l, o, prepared(r, table, helpers)) for l, o, r in assignments(body)]
+        acc = set()
+        for lhs, op, e in asg:
+            if op == "+=":
+                try:
+                    c, atoms = single(parse(e))
+                except Unrecognised:
+                    continue
+                if c == 1 and sorted((last(a), p) for a, p in atoms.items()) == [("coef", 1), ("z", 1)]:
+                    acc.add(lhs)
+        found = []
+        for lhs, op, e in asg:
+            if op == "=" and last(lhs) == "coef":
+                try:
+                    c, atoms = single(parse(e))
+                except Unrecognised:
+                    continue
+                if len(atoms) == 1 and list(atoms)[0] in acc and list(atoms.values()) == [1]:
+                    found.append(c)
+        if len(acc) == 1 and len(found) == 1:
+            out["PSI_COEF"] = found[0]
+            where.append("prep.cpp add_potential_factor coef = c * accumulated z")
+        else:
+            fail("PSI_COEF", f"accumulators {sorted(acc)}, assignments {list(map(str, found))}")
+    except Unrecognised as e:
+        fail("PSI_COEF", str(e))
     return out, where, ok
+
+
+KEYS = ("F_C_MOL", "F_KJ_V_EQ", "R_KJ_DEG_MOL", "EPSILON_ZERO", "GC_FACTOR", "FSINH_FACTOR", "ALPHA_FACTOR", "CD_DDL_FACTOR",
+        "PSI_COEF", "CCM_FACTOR")
 
 
 def lean_rat(q):
@@ -77,21 +533,25 @@ def lean_rat(q):
 def generate(ctx=None):
     out, where, ok = extract()
     lines = ["/-! GENERATED by tools/gen_surfconst.py from /repo/src/phreeqcpp — do not edit.",
-             "Sources: " + "; ".join(where) + " -/",
+             "Facts: " + "; ".join(where) + " -/",
              "namespace PhreeqcVerif.Gen.SurfConst", ""]
-    for k in ("F_C_MOL", "F_KJ_V_EQ", "R_KJ_DEG_MOL", "EPSILON_ZERO", "GC_FACTOR", "CD_DDL_FACTOR", "PSI_COEF", "CCM_FACTOR"):
-        lines.append(f"def {k} : Rat := {lean_rat(out[k])}")
-    lines.append(f"/-- every code shape the translator looks for was found -/\ndef recognised : Bool := {'true' if ok else 'false'}")
+    for k in KEYS:
+        lines.append(f"def {k} : Rat := {lean_rat(out.get(k, Fraction(0)))}")
+    lines.append(f"/-- every fact the translator looks for was established -/\ndef recognised : Bool := {'true' if ok else 'false'}")
     lines += ["", "end PhreeqcVerif.Gen.SurfConst", ""]
     text = "\n".join(lines)
     p = vlib.LEAN / "PhreeqcVerif" / "Gen" / "SurfConst.lean"
     if not p.exists() or p.read_text() != text:
         p.write_text(text)
     if ctx is not None:
-        ctx.cov["translator_surfconst"] = {"recognised": ok, "sources": where,
+        ctx.cov["translator_surfconst"] = {"recognised": ok, "facts": where,
                                            "values": {k: str(v) for k, v in out.items()}}
     return ok
 
 
 if __name__ == "__main__":
-    print(generate())
+    o, w, k = extract()
+    print(k)
+    for kk in KEYS:
+        print(kk, o.get(kk))
+    print("\n".join(w))
